@@ -176,6 +176,11 @@ class CacheModel:
         t = self.p.tree(m, cls, {})
         rd, wr, oc = set(), {}, []
         for e in iter_events(t):
+            if e.kind == "dynread":
+                raise AnalysisError(
+                    f"{e.where} cached method {m.qualname} reads an attribute whose "
+                    f"name is computed (`getattr(self, {e.info.get('name')})`): its "
+                    f"dependencies cannot be enumerated")
             if e.kind == "read":
                 if e.cell not in OUTPUT_ONLY_CELLS and e.cell not in self.counters:
                     rd.add(e.cell)
